@@ -17,6 +17,8 @@ Ops (same JSON as the Lean driver, see Driver/ConfigSvcCommon.lean):
   taskInstall {k}   applyTask {i}
 Import only after core.use_repo().
 """
+import os
+import sys
 import threading
 from concurrent.futures import Future
 
@@ -220,34 +222,110 @@ def make_response(op):
                         response_type=op.get('rt', 0 if op.get('nc') else 1))
 
 
+class FallbackTaskHandler:
+    """used only when the real TaskHandler has no `_pool` to substitute: the public contract of a task handler
+    (`submit_task(fn, *args) -> Future`) on top of the step executor"""
+
+    def __init__(self, executor):
+        self.executor = executor
+
+    def submit_task(self, task, *args):
+        return self.executor.submit(task, *args)
+
+    def flush(self):
+        pass
+
+
+class LastDelivered(ConfigUpdateListener):
+    """added after the handler's own listener (public `add_listener`): remembers the last configuration delivered —
+    the fallback way to see what is installed when the handler's list is not where we know it"""
+
+    def __init__(self):
+        self.last = []
+
+    def config_change(self, ts, old_hash, current_hash, old_config, new_config):
+        self.last = list(new_config)
+
+
 class SvcBench:
+    """Everything is wired through public API (ConfigService(custom, tracepoints=…), config.add_listener,
+    Deep(config), register_tracepoint / unregister, LongPoll.poll, the `current_hash` / `current_config` properties,
+    TriggerHandler.new_config).  The few private attributes that make the bench sharper (the pool inside the
+    TaskHandler, the update lock, the custom list, the handler's installed list) are probed with getattr; when one is
+    not there the bench goes on without it and says so in `degraded`."""
+
     def __init__(self, poll_timer=None):
+        self.degraded = []
         cfg = {'SERVICE_URL': 'unused.invalid:1', 'SERVICE_SECURE': 'False', 'APP_ROOT': '/app'}
         if poll_timer is not None:
             cfg['POLL_TIMER'] = poll_timer
-        self.config = ConfigService(cfg, tracepoints=TracepointConfigService())
-        self.config.resource = Resource.get_empty()
-        self.deep = Deep(self.config)
-        self.deep.task_handler._pool.shutdown(wait=False)
         self.exec = StepExecutor()
-        self.deep.task_handler._pool = self.exec
+        self.tps = TracepointConfigService()
+        self.config = ConfigService(cfg, tracepoints=self.tps)
+        self.config.resource = Resource.get_empty()
+        # our gate listener first, then Deep() lets the trigger handler add its own: ours is called before it
+        self.gate = GateListener(self.exec)
+        self.config.add_listener(self.gate)
+        self.deep = Deep(self.config)
+        self.last = LastDelivered()
+        self.config.add_listener(self.last)
+        th = self.deep.task_handler
+        pool = getattr(th, '_pool', None)
+        if pool is not None and hasattr(pool, 'submit'):
+            try:
+                pool.shutdown(wait=False)
+            except Exception:
+                pass
+            th._pool = self.exec
+        else:
+            self.degraded.append('TaskHandler has no _pool: a stand-in task handler is given to the config service')
+            self.config.set_task_handler(FallbackTaskHandler(self.exec))
         self.channel = FakeChannel()
         self.deep.grpc.channel = self.channel
-        self.tps = self.config.tracepoints
-        self.gate = GateListener(self.exec)
-        self.tps._listeners.insert(0, self.gate)
-        gate_new_config(self.exec, self.deep.trigger_handler)
-        if hasattr(self.tps, '_update_lock'):
-            self.tps._update_lock = GateLock(self.exec, self.tps._update_lock)
+        try:
+            gate_new_config(self.exec, self.deep.trigger_handler)
+        except Exception as e:
+            self.degraded.append('no gate at TriggerHandler.new_config: %s' % type(e).__name__)
+        lock = getattr(self.tps, '_update_lock', None)
+        if lock is not None and hasattr(lock, 'acquire') and hasattr(lock, 'release'):
+            self.tps._update_lock = GateLock(self.exec, lock)
+        else:
+            self.degraded.append('no _update_lock to put a gate in front of')
         self.handles = []
 
     # ---- observation
+    def _safe(self, fn, what, default=None):
+        try:
+            return fn()
+        except BaseException as e:  # noqa: B902
+            note = f'{what} not observable ({type(e).__name__})'
+            if note not in self.degraded:
+                self.degraded.append(note)
+            return default
+
+    def installed(self):
+        tp = getattr(self.deep.trigger_handler, '_tp_config', None)
+        if isinstance(tp, list):
+            return self._safe(lambda: flatten(tp), 'installed list', [])
+        if 'handler._tp_config is gone: installed = last configuration delivered to a listener' not in self.degraded:
+            self.degraded.append('handler._tp_config is gone: installed = last configuration delivered to a listener')
+        return self._safe(lambda: flatten(self.last.last), 'delivered configuration', [])
+
+    def custom(self):
+        c = getattr(self.tps, '_custom', None)
+        if isinstance(c, list):
+            return self._safe(lambda: flatten(c), 'custom list')
+        if 'custom list not observable (not a plain list any more)' not in self.degraded:
+            self.degraded.append('custom list not observable (not a plain list any more)')
+        return None
+
     def snapshot(self):
-        return {'hash': self.tps._current_hash, 'queued': len(self.exec.waiting()),
+        return {'hash': self._safe(lambda: self.tps.current_hash, 'current_hash'),
+                'queued': len(self.exec.waiting()),
                 'pre': len(self.exec.parked()), 'holding': len(self.exec.holders()),
-                'installed': flatten(self.deep.trigger_handler._tp_config),
-                'custom': flatten(self.tps._custom),
-                'polled': flatten(self.tps._tracepoint_config)}
+                'installed': self.installed(),
+                'custom': self.custom(),
+                'polled': self._safe(lambda: flatten(self.tps.current_config), 'current_config', [])}
 
     # ---- ops
     def do(self, op):
@@ -392,6 +470,98 @@ def run_ops(ops, poll_timer=None):
             r = b.do(op)
             r.update(b.snapshot())
             trace.append(r)
-        return {'trace': trace}
+        return {'trace': trace, 'degraded': list(b.degraded)}
+    except core.Infra:
+        raise
+    except BaseException as e:  # noqa: B902 — the bench itself tripped over the implementation: data, not a crash
+        import traceback
+        return {'trace': trace, 'degraded': list(b.degraded),
+                'bench_error': f'{type(e).__name__}: {e} @ ' + ' <- '.join(
+                    f'{f.name}:{f.lineno}' for f in reversed(traceback.extract_tb(e.__traceback__)[-3:]))}
+    finally:
+        b.close()
+
+
+# ------------------------------------------------------------------ line-granular preemption (no model region)
+CONFIG_FILE = os.path.join('config', 'tracepoint_config.py')
+
+
+class ParkAtLine:
+    """trace hook for the victim thread: park just before the k-th line it executes inside
+    deep/config/tracepoint_config.py"""
+
+    def __init__(self, k):
+        self.k = k
+        self.steps = 0
+        self.parked = threading.Event()
+        self.release = threading.Event()
+        self.where = None
+
+    def __call__(self, frame, event, arg):
+        if not frame.f_code.co_filename.endswith(CONFIG_FILE):
+            return None
+        return self.local
+
+    def local(self, frame, event, arg):
+        if event == 'line':
+            self.steps += 1
+            if self.steps == self.k:
+                self.where = '%s:%s' % (frame.f_code.co_name, frame.f_lineno)
+                self.parked.set()
+                self.release.wait(WAIT)
+        return self.local
+
+
+def run_preempt(case):
+    """prefix ops (run normally), then the `victim` op on its own thread, parked before the k-th line it executes in
+    tracepoint_config.py while the `intruder` op runs to completion on this thread; then every apply task is run.
+    Returns the final public state; not modelled (the Lean model has no regions inside these methods)."""
+    b = SvcBench()
+    out = {'reached': False, 'where': None}
+    try:
+        for op in case['prefix']:
+            b.do(op)
+        park = ParkAtLine(case['k'])
+        finished = threading.Event()
+        res = {}
+
+        def victim():
+            sys.settrace(park)
+            try:
+                res['victim'] = b.do(case['victim'])
+            except BaseException as e:  # noqa: B902
+                res['victim'] = {'raised': f'{type(e).__name__}: {e}'}
+            finally:
+                sys.settrace(None)
+                finished.set()
+                park.parked.set()
+        t = threading.Thread(target=victim, daemon=True)
+        t.start()
+        if not park.parked.wait(WAIT):
+            raise core.Infra('victim thread neither parked nor finished')
+        out['reached'] = not finished.is_set()
+        out['where'] = park.where
+        try:
+            res['intruder'] = b.do(case['intruder'])
+        except BaseException as e:  # noqa: B902
+            res['intruder'] = {'raised': f'{type(e).__name__}: {e}'}
+        park.release.set()
+        t.join(WAIT)
+        if t.is_alive():
+            raise core.Infra('victim thread did not end')
+        n = 0
+        while b.exec.waiting() and n < 50:
+            r = b.do({'op': 'applyTask', 'i': 0})
+            if 'task_raised' in r:
+                res.setdefault('task_raised', []).append(r['task_raised'])
+            n += 1
+        out.update({'victim': res.get('victim'), 'intruder': res.get('intruder'),
+                    'task_raised': res.get('task_raised', []), 'final': b.snapshot(), 'degraded': list(b.degraded)})
+        return out
+    except core.Infra:
+        raise
+    except BaseException as e:  # noqa: B902
+        out.update({'bench_error': f'{type(e).__name__}: {e}', 'degraded': list(b.degraded)})
+        return out
     finally:
         b.close()
